@@ -374,8 +374,11 @@ def run_ctors(ctx: core.Ctx, descs: list[dict[str, Any]], stream: str) -> None:
     dis = 0
     ref: list[dict[str, Any]] = []
     pending: list[Any] = []
+    recent: list[dict[str, Any]] = []
     for c, mo in zip(descs, model):
         MC.clear_caches()
+        hist = list(recent) if "history" in stream else []
+        recent = (recent + [c])[-5:]
         try:
             d = real_build(c)
             io = dep_report(d, probes, envs)
@@ -387,7 +390,7 @@ def run_ctors(ctx: core.Ctx, descs: list[dict[str, Any]], stream: str) -> None:
         if d is None:
             ctx.case("x:" + repr(c), nontrivial=False)
             continue
-        oracle(ctx, d, {"ctor": c}, envs, probes, ref, pending)
+        oracle(ctx, d, {"ctor": c, "history": hist} if hist else {"ctor": c}, envs, probes, ref, pending)
     check_reference(ctx, ref, pending)
     ctx.stream(stream, len(descs), dis)
 
@@ -464,6 +467,14 @@ def correspondence(ctx: core.Ctx) -> None:
         run_insensitive(ctx, pairs)
         bad = [GD.mutate(rnd, t) for t in texts[: len(texts) // 6]]
         run_texts(ctx, [t for t in bad if core.valid_utf8(t) and "\x00" not in t], "malformed", do_oracle=True)
+        # call history: each description followed at once by siblings that differ in one field its ==/hash ignores or
+        # relates loosely — the model is a pure function of the description, so state kept between calls shows up
+        hist: list[dict[str, Any]] = []
+        for d in descs[: len(descs) // 4]:
+            hist.append(d)
+            hist.extend(GD.siblings(rnd, d))
+        run_ctors(ctx, hist, "history")
+        run_texts(ctx, [GD.dep_text(rnd, d, plain=True) for d in hist], "history-text")
     run_giturls(ctx, GD.git_url_texts(rnd, ctx.budget(1500, 20000)))
 
 
@@ -486,6 +497,11 @@ def search(ctx: core.Ctx) -> None:
         descs = gen_descs(ctx, 1000)
         run_ctors(ctx, descs, "search-ctor")
         run_texts(ctx, [GD.dep_text(ctx.rng, d) for d in descs], "search-text")
+        hist: list[dict[str, Any]] = []
+        for d in descs[:300]:
+            hist.append(d)
+            hist.extend(GD.siblings(ctx.rng, d))
+        run_ctors(ctx, hist, "search-history")
         run_insensitive(ctx, [(GD.dep_text(ctx.rng, d, plain=True), GD.dep_text(ctx.rng, GD.variant(ctx.rng, d))) for d in descs[:400]])
 
 
@@ -500,6 +516,11 @@ def replay(ctx: core.Ctx, payload: dict[str, Any]) -> bool:
     if "pair" in w:
         run_insensitive(ctx, [tuple(w["pair"])])
         return len(ctx.violations) > before
+    for h in w.get("history", []):     # the calls made just before in the same process (state kept between calls)
+        try:
+            dep_report(real_build(h), probes, envs)
+        except Exception:  # noqa: BLE001
+            pass
     try:
         d = real_parse(w["text"]) if "text" in w else real_build(w["ctor"])
     except Exception:  # noqa: BLE001
